@@ -195,6 +195,7 @@ class C04(World):
         objs = None  # three replicas under different library seeds
         recipe = None
         self._loose_normals = False
+        self._ntol = 1e-9
         self._slack = 0.0
         bkind = kind
         for step, op in enumerate(program["ops"]):
@@ -276,7 +277,11 @@ class C04(World):
                 # the whole-matrix identity shortcut: the library legitimately moves nothing
                 self._slack = getattr(self, "_slack", 0.0) + 4e-8
             ldev = float(np.abs(E[:-1, :-1] - np.eye(E.shape[0] - 1)).max())
+            if self._loose_normals and ldev > 1e-6:
+                # an error already present in memoised normals is amplified by a later anisotropic matrix
+                self._ntol = min(1.0, self._ntol * float(np.linalg.cond(E[:-1, :-1])) ** 2)
             if 0.0 < ldev <= 1e-6:
+                self._ntol = max(self._ntol, 3e-6)
                 # inside the documented "no rotation" shortcut memoised normals are deliberately not rotated: error <= |R - I|
                 self._loose_normals = True
             outcomes = []
@@ -370,7 +375,7 @@ class C04(World):
                 import trimesh
 
                 fresh = trimesh.Trimesh(vertices=V.tolist(), faces=F.tolist(), process=False)
-                ntol = 3e-6 if self._loose_normals else 1e-9
+                ntol = self._ntol
                 if same(np.asarray(o.face_normals), np.asarray(fresh.face_normals), ntol, "face_normals"):
                     fail("face_normals", "differ from the normals of a fresh mesh")
                 if same(np.asarray(o.vertex_normals), np.asarray(fresh.vertex_normals), ntol, "vertex_normals"):
